@@ -251,6 +251,9 @@ func drawCase(t *rapid.T, o gen.DataOpts, nexpr int) *Case {
 	for i := 0; i < k; i++ {
 		c.Exprs = append(c.Exprs, pool.Expr(t, gen.UnknownSometimes(t)))
 	}
+	if rapid.IntRange(0, 2).Draw(t, "errprec") == 0 {
+		c.Exprs = append(c.Exprs, pool.ErrorPrecedence(t)...)
+	}
 	return c
 }
 
